@@ -169,6 +169,18 @@ Section Conc.
     | _, _, _ => None
     end.
 
+  (** What the destination's Write returns (n, err) is NOT an input of any transition: Handle hands the result
+      to its caller and nobody looks at it again.  To make that a statement, schedules may carry a result for
+      every label (only meaningful for LWriteEnd); [rstep] ignores it by definition of the model, and
+      Properties/C02.v states the theorem for every assignment of results. *)
+  Inductive wresult := WOk | WShort (n : nat) | WErr (kind : nat).
+  Definition rstep (f : cflags) (s : state) (lr : label * wresult) : option state := step f s (fst lr).
+  Fixpoint rrun (f : cflags) (s : state) (ls : list (label * wresult)) : option state :=
+    match ls with
+    | [] => Some s
+    | l :: r => match rstep f s l with Some s' => rrun f s' r | None => None end
+    end.
+
   Fixpoint run (f : cflags) (s : state) (ls : list label) : option state :=
     match ls with
     | [] => Some s
